@@ -827,6 +827,7 @@ int tls_process_client_hello_exts(const uint8_t *exts, size_t extslen, uint8_t *
 	int type;
 	const uint8_t *data;
 	size_t datalen;
+	size_t len;
 
 	while (extslen) {
 		if (tls_ext_from_bytes(&type, &data, &datalen, &exts, &extslen) != 1) {
@@ -834,21 +835,31 @@ int tls_process_client_hello_exts(const uint8_t *exts, size_t extslen, uint8_t *
 			return -1;
 		}
 
+		// each response is first sized (NULL output) on top of what has been written, and refused if it does not fit
 		switch (type) {
 		case TLS_extension_ec_point_formats:
-			if (tls_process_client_ec_point_formats(data, datalen, &out, outlen) != 1) {
+			len = *outlen;
+			if (tls_process_client_ec_point_formats(data, datalen, NULL, &len) != 1
+				|| len > maxlen
+				|| tls_process_client_ec_point_formats(data, datalen, &out, outlen) != 1) {
 				error_print();
 				return -1;
 			}
 			break;
 		case TLS_extension_signature_algorithms:
-			if (tls_process_client_signature_algorithms(data, datalen, &out, outlen) != 1) {
+			len = *outlen;
+			if (tls_process_client_signature_algorithms(data, datalen, NULL, &len) != 1
+				|| len > maxlen
+				|| tls_process_client_signature_algorithms(data, datalen, &out, outlen) != 1) {
 				error_print();
 				return -1;
 			}
 			break;
 		case TLS_extension_supported_groups:
-			if (tls_process_client_supported_groups(data, datalen, &out, outlen) != 1) {
+			len = *outlen;
+			if (tls_process_client_supported_groups(data, datalen, NULL, &len) != 1
+				|| len > maxlen
+				|| tls_process_client_supported_groups(data, datalen, &out, outlen) != 1) {
 				error_print();
 				return -1;
 			}
